@@ -1454,7 +1454,9 @@ class SymEval:
             if v and all(isinstance(x, bool) for x in v):
                 return np.array(v, dtype=bool)
             if any(isinstance(x, str) for x in v):
-                return list(v)
+                return list(v) if isinstance(v, list) else v
+            if isinstance(v, tuple):      # a tuple is one index per axis, not a selection of rows
+                return tuple(int(x) if isinstance(x, (int, sp.Integer)) and not isinstance(x, bool) else x for x in v)
             return [int(x) for x in v]
         if is_arr(v) and v.dtype == object and v.size and all(isinstance(x, (bool, np.bool_)) for x in v.flat):
             return v.astype(bool)
